@@ -112,6 +112,7 @@ type Cluster struct {
 
 	Failures      []string
 	Delivered     map[string]int // delivered calls per method
+	Calls         []string       // every delivered call, in order
 	EventBatches  int
 	Kills         int
 	Ticks         int
@@ -528,7 +529,7 @@ func (cl *Cluster) StartJob(savepointURI string) {
 	cl.jobGen++
 	job, err := jobs.New(&jobs.NewParams{
 		JobConfig: &config.Config{WorkerCount: cl.Cfg.Workers, KeyGroupCount: cl.Cfg.KeyGroups, WorkingStorageLocation: "memory://" + cl.Base + "/dkv", Sources: []connectors.SourceConfig{cl.src}},
-		SavepointURI: savepointURI, Clock: cl.Clock, HeartbeatDeadline: 5 * time.Second, Store: cl.Loc, ErrChan: make(chan error, 16),
+		SavepointURI: savepointURI, Clock: cl.Clock, HeartbeatDeadline: 5 * time.Second, Store: &UnifiedLoc{MemLoc: cl.Loc, DKV: cl.Root}, ErrChan: make(chan error, 16),
 		OperatorFactory:     func(senderID string, node *jobpb.NodeIdentity) proto.Operator { return &opProxy{cl: cl, from: "job", target: node.Id} },
 		SourceRunnerFactory: func(node *jobpb.NodeIdentity) proto.SourceRunner { return &srProxy{cl: cl, target: node.Id} },
 	})
@@ -619,6 +620,7 @@ func (cl *Cluster) Deliver(i int) string {
 	if j := strings.IndexByte(name, '('); j > 0 {
 		cl.Delivered[name[:j]]++
 	}
+	cl.Calls = append(cl.Calls, rc.label)
 	shim.Close(rc.go_)
 	return rc.label
 }
@@ -771,3 +773,31 @@ func (cl *Cluster) Stop() {
 
 // StateLoaded reports handler invocations after a restore that were handed non-empty state.
 func (cl *Cluster) StateLoaded() int { return cl.stateLoaded }
+
+// WipeWorkingStorage deletes every DKV file and every job file outside the savepoints
+// directory: what remains is what a savepoint must be self-contained with.
+func (cl *Cluster) WipeWorkingStorage() {
+	cl.Root.DeleteAll()
+	for _, name := range cl.Loc.Names() {
+		if !strings.HasPrefix(name, "savepoints/") {
+			cl.Loc.Remove(name)
+		}
+	}
+}
+
+// ResetInput forgets the readers of the previous job (a new job starts its own).
+func (cl *Cluster) ResetInput() { cl.readers = nil }
+
+// CursorsOf decodes the split positions of a job checkpoint.
+func CursorsOf(snap *snapshotpb.JobCheckpoint) map[string]int {
+	out := map[string]int{}
+	for _, sc := range snap.SourceCheckpoints {
+		for _, st := range sc.SplitStates {
+			p := strings.SplitN(string(st), "=", 2)
+			n := 0
+			fmt.Sscan(p[1], &n)
+			out[p[0]] = n
+		}
+	}
+	return out
+}
